@@ -312,7 +312,21 @@ HASHED_COLL = '_hashed_sp'       # the collection of parsed hashed subpackets (t
 
 def _touches_hashed(s, obj):
     """Does this path change the hashed subpacket collection of `obj` (item store, rebinding, mutating call, delete)?"""
-    coll = '%s.%s' % (obj, HASHED_COLL)
+    coll0 = '%s.%s' % (obj, HASHED_COLL)
+    # values this path has decided to BE the collection (`x is self._hashed_sp` true / `is not` false): stores through them count
+    names = [coll0]
+    for text, value, sk in s.facts:
+        if sk is not None and sk[0] == 'cmp' and sk[1] in ('is', 'is not') and value == (sk[1] == 'is'):
+            for a, b in ((sk[2], sk[3]), (sk[3], sk[2])):
+                if b == coll0 and a not in names:
+                    names.append(a)
+    for coll in names:
+        if _touches(s, coll):
+            return True
+    return False
+
+
+def _touches(s, coll):
     for e in s.events:
         if e[0] == 'store' and (e[1] == coll or e[1].startswith(coll + '[')):
             return True
@@ -400,7 +414,15 @@ def check_other_stores(rep, prog, ci, raw):
         raise AnalysisError('SubPackets.__setitem__ vanished')
     RS = '%s.%s' % (si.params[0], raw)
     for hashed, key in ((True, 'h_Issuer'), (False, 'Issuer'), (True, 'h_NotationData'), (False, 'NotationData')):
-        outs = Interp(prog, Scenario(inline=noinline, args=at(si, p1=Const(key)))).run(si)
+        # private helpers of the class are followed (the key convention may live in one); two different attributes of the
+        # subpacket set hold two different containers (each is assigned its own in __init__)
+        def distinct(t):
+            m = re.match(r'^\((%s\.\w+) (is|is not) (%s\.\w+)\)$' % (re.escape(si.params[0]), re.escape(si.params[0])), t)
+            if m and m.group(1) != m.group(3):
+                return m.group(2) == 'is not'
+            return None
+        outs = Interp(prog, Scenario(inline=lambda f: f.cls is ci and f.name.startswith('_') and not f.name.startswith('__'),
+                                     oracle=distinct, args=at(si, p1=Const(key)))).run(si)
         outs = [s for s in outs if s.raised is None]
         if not outs:
             raise AnalysisError('SubPackets.__setitem__: no returning path for key %r' % key)
